@@ -915,7 +915,16 @@ var vNamePool = []string{"a.txt", "data.bin", "x", "读我.md", "sp ace.txt", "-
 var vSizePool = []int{0, 1, 511, 512, 513, 1023, 1024, 10239, 10240, 10241, 131071, 131072, 131073, 393215, 393217}
 
 func vGenContent(tp *verifsim.Tape, size int) ([]byte, string) {
-	switch tp.Pick("content", 3, 3, 3, 2) {
+	switch tp.Pick("content", 3, 3, 3, 2, 1) {
+	case 4:
+		// a log of a trzsz session: the texts every party of the path looks for in what goes by
+		pat := []byte("12:00:01 tosvr #ACT:eJyq #CFG:eJw= #EXIT:eJwLTixLTVEw #FAIL:eJzz #fail:eJwL #SUCC:42 #DATA:= \x1b7\x07::TRZSZ:TRANSFER:S:1.1.8:4668480000020:12345\r\nSaved 1 file\r\n**\x18B00000000000000\r\x8a\x11 Ctrl-C \x03 !\n")
+		b := make([]byte, size)
+		k := tp.Draw("markeroff", len(pat))
+		for i := range b {
+			b[i] = pat[(i+k)%len(pat)]
+		}
+		return b, "marker-text"
 	case 0:
 		return make([]byte, size), "zeros"
 	case 1:
